@@ -44,6 +44,7 @@ class VT(object):
         self.deadlocked = False
         self.held = 0               # locks currently owned
         self.npoints = 0
+        self.nlines = 0             # lines executed inside nfc (line_trace)
 
     def __repr__(self):
         return "<VT %d %s %s on=%s>" % (self.idx, self.name, self.state,
@@ -78,6 +79,16 @@ class Sched(object):
         # thread that lost the CPU); each entry fires once
         self.stalls = []
         self.stalled = 0
+        # line-granular preemption (opt-in): with line_trace set, every
+        # virtual thread counts the source lines it executes inside the nfc
+        # package (VT.nlines); an entry [name substring, n] of line_preempt
+        # takes the CPU from the first matching thread when it is about to
+        # execute its n-th such line and gives it to another runnable thread
+        # - what an OS may do between any two bytecodes, also where nfcpy
+        # has no synchronisation point.  Each entry fires once.
+        self.line_trace = False
+        self.line_preempt = []
+        self.line_preempted = 0
         me = VT(self, "controller", 0)
         me.state = RUNNABLE
         me.real = _th.current_thread()
@@ -194,6 +205,44 @@ class Sched(object):
                 self.switch(me)
                 return
 
+    def _line_tracer(self, vt):
+        import os
+        import sys
+        import nfc
+        scope = os.path.join(os.path.dirname(nfc.__file__), "")
+
+        def local(frame, event, arg):
+            if event == "line":
+                vt.nlines += 1
+                for i, (pat, n) in enumerate(self.line_preempt):
+                    if n == vt.nlines and pat in vt.name:
+                        del self.line_preempt[i]
+                        self._preempt(vt)
+                        break
+            return local
+
+        def glob(frame, event, arg):
+            if event == "call" and frame.f_code.co_filename.startswith(scope):
+                return local
+            return None
+        sys.settrace(glob)
+
+    def _preempt(self, me):
+        """the running thread loses the CPU here although it could go on"""
+        if self.abort or self.exhausted or me.state != RUNNABLE:
+            return
+        others = [t for t in self.threads
+                  if t.state == RUNNABLE and t is not me
+                  and t is not self.controller]
+        if not others:
+            return
+        self.line_preempted += 1
+        self.steps += 1
+        others[0].baton.release()
+        me.baton.acquire()
+        if self.abort:
+            raise Abort()
+
     def block(self, on, timeout=None):
         """returns True when woken, False when the virtual timeout expired"""
         me = self.me()
@@ -288,12 +337,17 @@ class Sched(object):
             try:
                 if self.abort:
                     return
+                if self.line_trace:
+                    self._line_tracer(vt)
                 orig_run()
             except (Abort, StepBudget):
                 pass
             except BaseException as e:      # uncaught in a thread
                 vt.exc = e
             finally:
+                if self.line_trace:
+                    import sys
+                    sys.settrace(None)
                 vt.state = DONE
                 if not self.abort:
                     try:
